@@ -37,6 +37,8 @@ Ltac step_struct :=
     | |- rets _ (feed _ _) => apply rets_feed
     | |- no_orbits (bind _ _) => apply no_orbits_bind
     | |- no_orbits (feed _ _) => apply no_orbits_feed
+    | |- nrdy (bind _ _) => apply nrdy_bind
+    | |- nrdy (feed _ _) => apply nrdy_feed
     | |- noret (bind _ _) => first [apply noret_bind | apply noret_bind_r]
     | |- noret (feed _ _) => apply noret_feed
     end
@@ -48,6 +50,8 @@ Ltac step_struct :=
     | |- rets _ (Ret _) => constructor
     | |- rets _ _ => constructor
     | |- no_orbits _ => constructor
+    | |- nrdy (OrBits _ _) => apply ny_or; [apply N.land_ldiff|]
+    | |- nrdy _ => constructor
     | |- noret _ => constructor
     | |- _ \/ _ => leaf
     end
@@ -292,3 +296,37 @@ Qed.
 
 (* what list_features / read_children build satisfies it *)
 Definition flist_ok (cfg : config) (l : flist) : Prop := cache_ok cfg (fl_cache l).
+
+(* ------------------------------------------------------------------ a negotiator call never sets the Ready bit *)
+
+(* (the bit is set by negotiateSession alone, from the mask the call returns) *)
+Lemma run_feature_nrdy n recv f ft pre : nrdy (run_feature n recv f ft pre).
+Proof.
+  unfold run_feature. pose proof (no_orbits_nrdy (negotiate_feature_nob n recv ft)). struct.
+Qed.
+
+Lemma init_loop_nrdy n cfg l : forall k force negotiated ready, nrdy (init_loop k n cfg l force negotiated ready).
+Proof.
+  induction k as [|k IH]; intros force negotiated ready; cbn [init_loop]; [constructor|].
+  pose proof (run_feature_nrdy n false). struct.
+Qed.
+
+Lemma recv_loop_nrdy cfg l : forall n negotiated ready, nrdy (recv_loop n cfg l negotiated ready).
+Proof.
+  induction n as [|n IH]; intros negotiated ready; cbn [recv_loop]; [constructor|].
+  pose proof (run_feature_nrdy n true). pose proof (no_orbits_nrdy (trim_space_nob n)). struct.
+Qed.
+
+Lemma std_call_nrdy n cfg ns : nrdy (std_call n cfg ns).
+Proof.
+  unfold std_call, features_receiver, features_initiator.
+  pose proof (fun f w => no_orbits_nrdy (expect_nob n f w)).
+  pose proof (no_orbits_nrdy (write_features_nob cfg)).
+  pose proof (fun acc => no_orbits_nrdy (read_children_nob n cfg acc)).
+  pose proof (recv_loop_nrdy cfg). pose proof (init_loop_nrdy n cfg).
+  struct.
+Qed.
+
+Lemma comp_call_nrdy n : nrdy (comp_call n).
+Proof. apply no_orbits_nrdy. apply comp_call_nob. Qed.
+
